@@ -9,6 +9,8 @@ pub mod session;
 
 pub const PROTOCOL_VERSION: u8 = 1;
 pub const MAX_MESSAGE_SIZE: usize = 16 * 1024 * 1024;
+/// Upper bound for the number of zero-column rows accepted in a `Rows` response.
+pub const MAX_EMPTY_ROWS: usize = 1 << 16;
 
 #[derive(Debug, Clone, PartialEq)]
 pub enum Request {
@@ -313,6 +315,14 @@ impl Response {
                 let col_count = u32::from_le_bytes(payload[0..4].try_into().unwrap()) as usize;
                 offset += 4;
 
+                // Every string occupies at least its 4-byte length prefix on the wire, so a
+                // count the remaining payload cannot hold is malformed. Never allocate from it.
+                if col_count > (payload.len() - offset) / 4 {
+                    return Err(TcpError::InvalidMessage(
+                        "Column count exceeds payload".into(),
+                    ));
+                }
+
                 let mut columns = Vec::with_capacity(col_count);
 
                 for _ in 0..col_count {
@@ -327,6 +337,19 @@ impl Response {
                 let row_count =
                     u32::from_le_bytes(payload[offset..offset + 4].try_into().unwrap()) as usize;
                 offset += 4;
+
+                // Same for rows; rows without columns carry no bytes at all, so they are
+                // bounded by a constant instead.
+                let max_rows = if col_count == 0 {
+                    MAX_EMPTY_ROWS
+                } else {
+                    (payload.len() - offset) / (4 * col_count)
+                };
+                if row_count > max_rows {
+                    return Err(TcpError::InvalidMessage(
+                        "Row count exceeds payload".into(),
+                    ));
+                }
 
                 let mut data = Vec::with_capacity(row_count);
                 for _ in 0..row_count {
